@@ -10,6 +10,7 @@ from .. import cfg as C, flow, guards
 from ..program import AnalysisError, Program, norm, walk_local
 from ..report import Check
 from ..util import calls_in, fkey, is_method_call, node_calls, path_of, recv_of, where
+from .c09 import is_stub
 
 MB = "pyrtma.message_base"
 MS = "pyrtma.message"
@@ -303,10 +304,98 @@ def run(prog: Program, chk: Check):
     # message level keys
     td_ = prog.func(MS, "Message.to_dict")
     tj = prog.func(MS, "Message.to_json")
-    keys_ok = True
-    for f in (td_, tj):
-        dc = [c for c in calls_in(f.node) if isinstance(c.func, ast.Name) and c.func.id == "dict"]
-        if not dc or sorted(k.arg for k in dc[0].keywords) != ["data", "header"]:
-            keys_ok = False
-    S.decide(keys_ok, f"{MS}|keys", where(td_), "to_dict/to_json emit exactly the keys from_json reads (header, data)", "to_dict/to_json keys differ from the keys from_json reads")
+    def emitted_keys(f, depth=0):
+        """keys of the mapping a Message method serialises: a dict(...) call / display, reached through locals, or self.to_dict()"""
+        cm_ = guards.copy_map(f.node)
+        outs = []
+        for n in walk_local(f.node):
+            if isinstance(n, ast.Return) and n.value is not None:
+                v = n.value
+                if isinstance(v, ast.Call) and norm(v.func) in ("json.dumps", "dumps") and v.args:
+                    v = v.args[0]
+                v = guards.subst(v, cm_)
+                if isinstance(v, ast.Name):  # a local assigned exactly once (`d = dict(...)`)
+                    defs = [a.value for a in walk_local(f.node) if isinstance(a, ast.Assign) and any(isinstance(t, ast.Name) and t.id == v.id for t in a.targets)]
+                    if len(defs) == 1:
+                        v = defs[0]
+                outs.append(v)
+        ks = set()
+        for v in outs:
+            if isinstance(v, ast.Call) and isinstance(v.func, ast.Name) and v.func.id == "dict" and not v.args:
+                ks.add(tuple(sorted(k.arg or "**" for k in v.keywords)))
+            elif isinstance(v, ast.Dict):
+                ks.add(tuple(sorted(k.value if isinstance(k, ast.Constant) else "**" for k in v.keys)))
+            elif isinstance(v, ast.Call) and norm(v.func) == "self.to_dict" and depth == 0:
+                ks |= emitted_keys(td_, 1)
+            else:
+                ks.add(("?" + norm(v)[:40],))
+        return ks
+
+    fjm = prog.func(MS, "Message.from_json")
+    loaded = {t.id for n in walk_local(fjm.node) if isinstance(n, ast.Assign) and isinstance(n.value, ast.Call) and norm(n.value.func) in ("json.loads", "loads")
+              for t in n.targets if isinstance(t, ast.Name)}
+    read_keys = tuple(sorted({n.slice.value for n in walk_local(fjm.node) if isinstance(n, ast.Subscript) and isinstance(n.value, ast.Name) and n.value.id in loaded
+                              and isinstance(n.slice, ast.Constant) and isinstance(n.slice.value, str)}))
+    if not read_keys:
+        raise AnalysisError("anchor vanished: keys read by Message.from_json")
+    ek = {f.qual: emitted_keys(f) for f in (td_, tj)}
+    keys_ok = all(v == {read_keys} for v in ek.values())
+    S.decide(keys_ok, f"{MS}|keys", where(td_), f"to_dict/to_json emit exactly the keys from_json reads {read_keys}",
+             f"to_dict/to_json keys differ from the keys from_json reads {read_keys}: " + "; ".join(f"{k} emits {sorted(v)}" for k, v in ek.items()))
     chk.units.update({"copy_methods": ncopy, "encoder_cases": te, "decoder_cases": td})
+
+    # ---- D the whole-array validator accepts exactly the values the element validator accepts ---------------------
+    # _from_dict assigns arrays whole; what a message can hold was put there through the element / scalar validator.  If
+    # validate_many refuses a value validate_one accepts (NaN under `not all(isfinite)`), such a message no longer decodes.
+    D = chk.rule("C10-D", "validate_many's per-element refusal predicate is equivalent to validate_one's (same value domain for scalar and whole-array assignment)", 1,
+                 "a value storable element-wise but refused as a whole array breaks from_dict/from_json of a message that holds it")
+    VALM = "pyrtma.validators"
+    vm = prog.modules.get(VALM)
+    if vm is None:
+        raise AnalysisError("anchor vanished: pyrtma.validators")
+
+    def refusal_tests(f, exc="ValueError"):
+        out_ = []
+        for n in walk_local(f.node):
+            if isinstance(n, ast.If) and n.body and isinstance(n.body[-1], ast.Raise) and n.body[-1].exc is not None \
+                    and norm(n.body[-1].exc.func if isinstance(n.body[-1].exc, ast.Call) else n.body[-1].exc) == exc:
+                out_.append(n.test)
+        return out_
+
+    def element_pred(test, seq):
+        """`any(P(v) for v in seq)` -> (v, P);  `not all(Q(v) for v in seq)` -> (v, not Q)"""
+        neg = False
+        t = test
+        while isinstance(t, ast.UnaryOp) and isinstance(t.op, ast.Not):
+            neg = not neg
+            t = t.operand
+        if isinstance(t, ast.Call) and isinstance(t.func, ast.Name) and t.func.id in ("any", "all") and len(t.args) == 1 and isinstance(t.args[0], (ast.GeneratorExp, ast.ListComp)):
+            ge = t.args[0]
+            if len(ge.generators) == 1 and not ge.generators[0].ifs and path_of(ge.generators[0].iter) == seq and isinstance(ge.generators[0].target, ast.Name):
+                if (t.func.id == "any") != neg:
+                    # any(P) [not negated]  or  not all(Q) == any(not Q)
+                    elt = ge.elt if t.func.id == "any" else ast.UnaryOp(op=ast.Not(), operand=ge.elt)
+                    return ge.generators[0].target.id, elt
+        return None
+
+    ncmp = 0
+    for cls in vm.classes.values():
+        one, many = cls.methods.get("validate_one"), cls.methods.get("validate_many")
+        if one is None or many is None or is_stub(one.node) or is_stub(many.node):
+            continue
+        t1, tm = refusal_tests(one), refusal_tests(many)
+        if len(t1) != 1 or len(tm) != 1:
+            continue
+        ep = element_pred(tm[0], many.params()[-1])
+        if ep is None:
+            continue  # an order-statistic form (ints): decided by C09-Q
+        ncmp += 1
+        var, pm = ep
+        p1 = guards.subst(t1[0], {one.params()[-1]: ast.Name(id="_v", ctx=ast.Load())})
+        pm = guards.subst(pm, {var: ast.Name(id="_v", ctx=ast.Load())})
+        same = guards.implies([(p1, True)], pm) and guards.implies([(pm, True)], p1)
+        D.decide(same, f"{VALM}::{cls.name}|one-vs-many", where(many), f"both refuse exactly `{norm(p1)}`",
+                 f"{cls.name}.validate_many refuses an element when `{norm(pm)}` but validate_one refuses when `{norm(p1)}`: a value accepted element-wise "
+                 f"(e.g. NaN) is refused as part of a whole array, so a message holding it cannot be decoded from a dict / JSON")
+    if ncmp < 1:
+        raise AnalysisError("anchor vanished: comparable validate_one / validate_many pair (float validators)")
